@@ -202,8 +202,8 @@ def binop (op : BinOp) (l r : Value N) (st : State N) : Except Err (Value N) × 
       -- :267-292  left elements not equal to any right element; Empty - Array = []
       match l with
       | .arr la =>
-        -- :272-278 `Array::Ptr right = rhs; ObjectLock xlock(right)`: a null dereference when rhs is Empty (finding F-C15d)
-        if !r.isArray then (.error (.unmodelled "Array - Empty dereferences a null pointer"), st) else
+        -- `if (rhs.IsEmpty()) return lhs->ShallowClone();` (13754a5; before it: a null dereference)
+        if !r.isArray then (let (a, st') := st.alloc (.arr ((st.arr? la).getD [])); (.ok (.arr a), st')) else
         let xs := (st.arr? la).getD []
         let ys := match r with | .arr a => (st.arr? a).getD [] | _ => []
         let keep := xs.foldr (fun x (acc : Option (List (Value N))) =>
